@@ -57,6 +57,11 @@ func LookupTerminfo(name string) (ti *terminfo.Terminfo, e error) {
 			return nil, e
 		}
 		terminfo.AddTerminfo(ti)
+		// through the database now, so that the environment (COLORTERM,
+		// TCELL_TRUECOLOR) applies as it will for every later lookup
+		if t2, e2 := terminfo.LookupTerminfo(name); e2 == nil {
+			ti = t2
+		}
 	}
 
 	return
